@@ -273,10 +273,16 @@ func firstLine(s string) string {
 	return s
 }
 
+// refOpts are the reference-model options used for every judged run.  The zero
+// value is the intended semantics (a CHECKPREDICATE child frame inherits the
+// expansion-reserved rule); set ChildResetsExpansion to model what protocol/vm does.
+var refOpts = refvm.Options{}
+
 // runRef runs the reference model.
 func runRef(c *vmCase, opt refvm.Options) (*refvm.Result, []string) {
 	var calls []string
 	ctx := refContext(c, &calls)
+	opt.ChildResetsExpansion = refOpts.ChildResetsExpansion
 	res := refvm.Run(ctx, c.Gas, opt)
 	return res, calls
 }
@@ -455,7 +461,7 @@ func skipped(skip map[string]bool, c *vmCase, res *refvm.Result) string {
 		if skip["childexp"] && st.Op == refvm.OpCheckOutput && st.Depth > 0 && c.Ctx.TxVersion != nil && *c.Ctx.TxVersion == 1 {
 			return "childexp"
 		}
-		if skip["alias"] && st.AliasedSplice {
+		if skip["alias"] && st.AliasedSplice && (st.Op == refvm.OpCat || st.Op == refvm.OpCatPushdata) {
 			return "alias"
 		}
 	}
